@@ -147,3 +147,68 @@ pub fn plan_strategy(cfg: &PlanCfg) -> BoxedStrategy<Plan> {
         .prop_map(|(editors, observers, steps, settle)| Plan { editors, observers, steps, settle })
         .boxed()
 }
+
+// ------------------------------------------------------------------------------------------------
+// byte decoder for coverage-guided fuzzing: respects the job's PlanCfg (a step kind with weight 0 is
+// never produced, so ops-only / strict jobs stay within their domain)
+
+pub struct Reader<'a> {
+    d: &'a [u8],
+    p: usize,
+}
+impl<'a> Reader<'a> {
+    pub fn new(d: &'a [u8]) -> Self {
+        Reader { d, p: 0 }
+    }
+    pub fn left(&self) -> usize {
+        self.d.len().saturating_sub(self.p)
+    }
+    pub fn u8(&mut self) -> u8 {
+        let v = self.d.get(self.p).copied().unwrap_or(0);
+        self.p += 1;
+        v
+    }
+    pub fn u16(&mut self) -> u16 {
+        let a = self.u8() as u16;
+        let b = self.u8() as u16;
+        (a << 8) | b
+    }
+}
+
+pub fn decode_plan(cfg: &PlanCfg, data: &[u8]) -> Option<Plan> {
+    if data.len() < 8 {
+        return None;
+    }
+    let mut r = Reader::new(data);
+    let editors = cfg.editors.0 + r.u8() % (cfg.editors.1 - cfg.editors.0 + 1);
+    let observers = cfg.observers.0 + r.u8() % (cfg.observers.1 - cfg.observers.0 + 1);
+    let settle: Vec<u16> = (0..cfg.settle).map(|_| r.u16()).collect();
+    let w = &cfg.w;
+    let table = [w.edit, w.deliver, w.redeliver, w.merge, w.snapshot, w.merge_snapshot, w.save_restore, w.probe];
+    let total: u32 = table.iter().sum();
+    let mut steps = Vec::new();
+    let max_steps = cfg.steps.1.max(8) + 12;
+    while r.left() > 0 && steps.len() < max_steps {
+        let mut x = (r.u8() as u32 * total) >> 8;
+        let mut kind = 0;
+        for (i, t) in table.iter().enumerate() {
+            if x < *t {
+                kind = i;
+                break;
+            }
+            x -= *t;
+        }
+        let s = match kind {
+            0 => Step::Edit { r: r.u16(), kind: r.u16(), a: r.u16(), b: r.u16(), c: r.u16(), d: r.u16(), e: r.u16(), f: r.u16() },
+            1 => Step::Deliver { r: r.u16(), pick: r.u16() },
+            2 => Step::Redeliver { r: r.u16(), pick: r.u16() },
+            3 => Step::Merge { dst: r.u16(), src: r.u16() },
+            4 => Step::Snapshot { r: r.u16() },
+            5 => Step::MergeSnapshot { dst: r.u16(), pick: r.u16() },
+            6 => Step::SaveRestore { r: r.u16() },
+            _ => Step::Probe { a: r.u16(), b: r.u16(), c: r.u16(), d: r.u16() },
+        };
+        steps.push(s);
+    }
+    Some(Plan { editors, observers, steps, settle })
+}
